@@ -458,6 +458,57 @@ def run_case(out, m, sname, lab, kind, dim, an, bn, blab, ub, vb, mode, tier, nk
                         f"({Jo!r} vs {hv * 2.0 * vb.dx.sum()!r})")
             except Exception as e:
                 bad('override-default-exception', repr(e))
+        # coefficient vectors of other dtypes (float32 / integer / complex64 hold the same VALUES as their float64 /
+        # complex128 copies): interpolation and parameter passing depend on the values only
+        if n_c == 0:
+            try:
+                base = np.round(fvec * 4) / 4
+                for dt, wide in ((np.float32, np.float64), (np.int64, np.float64), (np.complex64, np.complex128)):
+                    wv_ = (np.round(base) if dt is np.int64 else base * ((1 + .5j) if dt is np.complex64 else 1)).astype(dt)
+                    r1 = ub.interpolate(wv_)
+                    r2 = ub.interpolate(wv_.astype(wide))
+                    r1 = r1 if isinstance(r1, tuple) else (r1,)
+                    r2 = r2 if isinstance(r2, tuple) else (r2,)
+                    out.ev()
+                    for c_, (d1, d2) in enumerate(zip(r1, r2)):
+                        for a1, a2 in zip(d1.astuple, d2.astuple):
+                            if a1 is None and a2 is None:
+                                continue
+                            if np.abs(np.asarray(a1) - np.asarray(a2)).max() > 1e-13 * (1 + np.abs(np.asarray(a2)).max()):
+                                bad('interpolate-dtype', f"interpolate of a {np.dtype(dt).name} coefficient vector differs from the "
+                                    f"same values as {np.dtype(wide).name} by {np.abs(np.asarray(a1) - np.asarray(a2)).max():.3e}")
+                                raise StopIteration
+                    if scalar_trial and dt is not np.complex64:
+                        J1 = Functional(lambda w: w['f'] * (1 + w.x[0])).assemble(ub, f=wv_)
+                        J2 = Functional(lambda w: w['f'] * (1 + w.x[0])).assemble(ub, f=wv_.astype(wide))
+                        if abs(J1 - J2) > 1e-13 * (1 + abs(J2)):
+                            bad('parameter-dtype', f"a {np.dtype(dt).name} coefficient vector passed as form parameter gives {J1!r}, "
+                                f"the same values as {np.dtype(wide).name} give {J2!r}")
+            except StopIteration:
+                pass
+            except Exception as e:
+                bad('interpolate-dtype-exception', repr(e))
+        # vector- and tensor-valued functionals: every component is the integral of that component
+        if n_c == 0:
+            try:
+                xq_ = np.asarray(vb.global_coordinates())
+                Fv = Functional(lambda w: w.x * (1 + w.x[0]))
+                gotv, elv = Fv.assemble(vb), Fv.elemental(vb)
+                wantel = (xq_ * (1 + xq_[0]) * vb.dx).sum(-1)
+                out.ev()
+                if np.shape(elv) != wantel.shape or np.abs(elv - wantel).max() > 1e-12 * (1 + np.abs(wantel).max()) \
+                        or np.shape(gotv) != (dim,) or np.abs(gotv - wantel.sum(-1)).max() > 1e-12 * (1 + np.abs(wantel).max()):
+                    bad('functional-vector-valued', f"vector-valued Functional: elemental shape {np.shape(elv)} (expected "
+                        f"{wantel.shape}), assemble shape {np.shape(gotv)} (expected {(dim,)}) or values differ")
+                Ft = Functional(lambda w: w.x[:, None] * w.x[None, :] * (1 + w.x[0]))
+                gott, elt = Ft.assemble(vb), Ft.elemental(vb)
+                wantt = (xq_[:, None] * xq_[None, :] * (1 + xq_[0]) * vb.dx).sum(-1)
+                if np.shape(elt) != wantt.shape or np.abs(elt - wantt).max() > 1e-12 * (1 + np.abs(wantt).max()) \
+                        or np.shape(gott) != (dim, dim) or np.abs(gott - wantt.sum(-1)).max() > 1e-12 * (1 + np.abs(wantt).max()):
+                    bad('functional-tensor-valued', f"matrix-valued Functional: elemental shape {np.shape(elt)} (expected "
+                        f"{wantt.shape}), assemble shape {np.shape(gott)} (expected {(dim, dim)}) or values differ")
+            except Exception as e:
+                bad('functional-vector-valued-exception', repr(e))
         # trilinear on tiny meshes (first integrand only)
         if n_c == 0 and nel <= 3 and ub.Nbfun * vb.Nbfun * ub.Nbfun <= 400 and ncu == 1 and ncv == 1:
             def tri(u, v, q, w, fu=fu, fv=fv):
